@@ -461,16 +461,17 @@ P_CrashImage(b) ==
   /\ \A i \in DOMAIN R : R[i] \in ever
 
 \* readers deliver increasing offsets with stored content and fail only with the documented class
-P_RdNext(r) ==
-  /\ obs'.err \in {"", "replaced", "notfound", "closed"}
-  /\ \A i \in DOMAIN obs'.ret :
-        LET x == obs'.ret[i] IN
-        /\ x \in ever
-        \* (a committed reader created beyond the HW resumes from the HW it saw, possibly below its start:
-        \* judged under C10, see CommitLog.tla P_Drain)
-        /\ IF rd[r].rev THEN x.off <= rd[r].pos ELSE (x.off >= rd[r].pos \/ (rd[r].c /\ ~rd[r].got))
-        /\ rd[r].c => x.off <= hw
-  /\ ViewOf(segs', listed') = View /\ hw' = hw
+P_RdClass(r) == obs'.err \in {"", "replaced", "notfound", "closed"}
+P_RdContent(r) == \A i \in DOMAIN obs'.ret : obs'.ret[i] \in ever
+\* (a committed reader created beyond the HW resumes from the HW it saw, possibly below its start:
+\* judged under C10, see CommitLog.tla P_Drain)
+P_RdOrder(r) == \A i \in DOMAIN obs'.ret : LET x == obs'.ret[i] IN
+                  IF rd[r].rev THEN x.off <= rd[r].pos ELSE (x.off >= rd[r].pos \/ (rd[r].c /\ ~rd[r].got))
+P_RdCommitted(r) == \A i \in DOMAIN obs'.ret : rd[r].c => obs'.ret[i].off <= hw
+P_RdQuiet(r) == ViewOf(segs', listed') = View /\ hw' = hw
+\* the HW lies below the first retained record (retention removed the segment that held it)
+HWBelowStart == View # <<>> /\ hw < View[1].off
+P_RdNext(r) == P_RdClass(r) /\ P_RdContent(r) /\ P_RdOrder(r) /\ P_RdCommitted(r) /\ P_RdQuiet(r)
 
 P_SetHW(h) == hw' = (IF h > hw THEN h ELSE hw) /\ ViewOf(segs', listed') = View
 P_NewEpoch == ViewOf(segs', listed') = View /\ hw' = hw
